@@ -7,6 +7,7 @@ CONSTANTS
   FixNonce = TRUE
   FixUnpad = TRUE
   FixProto = TRUE
+  FixShardLens = TRUE
 INIT MBTInit
 NEXT MBTNext
 CHECK_DEADLOCK FALSE
